@@ -30,8 +30,17 @@ ExplainsWhere(e) ==
 \* C03 (iii): the generic impl with its default bounds type-checks
 ExplainsCompiles(e) == e.rustc_ok
 
+\* C03, behavioural: e.tags is the where-clause the twin impl was built from; e.bits the trait-solver verdicts
+\* [derived, twin] for every instantiation of the parameters by probe types
+ExplainsProbe(e) ==
+    /\ Range(e.tags) = DocWhere(e.P)                    \* the twin really carries the specified where-clause
+    /\ e.rustc_ok
+    /\ Len(e.bits) > 0
+    /\ \A i \in DOMAIN e.bits : e.bits[i].derived = e.bits[i].twin
+
 Explains(e) ==
     CASE e.ev = "where"    -> ExplainsWhere(e)
+      [] e.ev = "probe"    -> ExplainsProbe(e)
       [] e.ev = "compiles" -> ExplainsCompiles(e)
       [] OTHER             -> FALSE
 
